@@ -62,6 +62,7 @@ THEOREM = {
     'translate': ('translate', 'PyObject_translate_eq'),
     'scale': ('scale', 'PyObject_scale_eq'),
     'project': ('project', 'PyObject_project_eq'),
+    'derivative': ('derivative', 'PyObject_derivative_eq'),
 }
 # guards of the theorems (repeated in the obligation detail); see the docstrings in PyObjectEq.lean
 GUARDS = {
@@ -88,6 +89,10 @@ GUARDS = {
              'control points; *args are numbers (ensure_flatlist idealised)',
     'project': 'controlpoints has at least one axis; ncomp >= 1; len(cps.data) = prod(shape); equal to '
                'Obj.projectChecked with keep = [c in plane.lower() for c in "xyz"]',
+    'derivative': 'as evaluate (1 <= pardim <= 3, one basis per axis, len(params) = pardim, ncomp >= 1, non-empty '
+                  'parameter lists in non-periodic directions: same MODEL/CODE GAP); d= and above= are lists (or absent) '
+                  'that, after ensure_listlike(.., pardim), have at least pardim entries; all derivative orders >= 0; '
+                  'equal to Obj.derivativeGeneric (generic SplineObject path only, not the Curve/Surface overrides)',
 }
 # theorems that are weaker than extensional equality (say so in the obligation)
 PARTIAL = {}
@@ -95,7 +100,7 @@ PARTIAL = {}
 EXTRA = {'evaluate_fn': ('PyObject_evaluate_fn_pointwise_eq',), 'evaluate': ('PyObject_evaluate_tensor_eq',)}
 EXTRA_THEOREMS = tuple(t for v in EXTRA.values() for t in v)
 # translated and elaborated, no equality theorem (yet): obligation = translates and elaborates
-TRANSLATION_ONLY = ('derivative',)
+TRANSLATION_ONLY = ()
 
 _MEM = {}
 
@@ -469,6 +474,12 @@ MUTS = {
  'project_keep':       ('obj', "            if not keep[i]:", "            if keep[i]:", ['project']),
  'project_letters':    ('obj', "keep = [c in plane.lower() for c in 'xyz']", "keep = [c in plane.lower() for c in 'xzy']", ['project']),
  'project_value':      ('obj', "self.controlpoints[..., i] = 0", "self.controlpoints[..., i] = 1", ['project']),
+ 'deriv_order_limit':  ('obj', "            if sum(derivs) > 1:", "            if sum(derivs) > 2:", ['derivative']),
+ 'deriv_quotient_sign':('obj', "result[..., i] = result[..., i] / W - non_derivative[..., i] * Wd / W / W", "result[..., i] = result[..., i] / W + non_derivative[..., i] * Wd / W / W", ['derivative']),
+ 'deriv_above_default':('obj', "above = kwargs.get('above', [True] * self.pardim)", "above = kwargs.get('above', [False] * self.pardim)", ['derivative']),
+ 'deriv_d_default':    ('obj', "derivs = kwargs.get('d', [1] * self.pardim)", "derivs = kwargs.get('d', [0] * self.pardim)", ['derivative']),
+ 'deriv_nonderiv_side':('obj', "Ns = [b.evaluate(p, 0, from_right) for b, p, from_right in zip(self.bases, params, above)]", "Ns = [b.evaluate(p, 0, True) for b, p, from_right in zip(self.bases, params, above)]", ['derivative']),
+ 'deriv_weight_deriv': ('obj', "                Wd = result[..., -1]         # W'", "                Wd = non_derivative[..., -1]         # W'", ['derivative']),
  'force_rational_val': ('obj', "            self.rational = 1\n", "            self.rational = 2\n", ['force_rational']),
  'default_arg':        ('obj', "def reverse(self, direction=0):", "def reverse(self, direction=1):", ['reverse']),
  'unknown_syntax':     ('obj', "        direction = check_direction(direction, self.pardim)\n        self.bases[direction].reverse()", "        direction = check_direction(direction, self.pardim)\n        while False: pass\n        self.bases[direction].reverse()", ['reverse']),
